@@ -552,17 +552,8 @@ def run(repo, rep):
     # ---------------------------------------------------------------- H5
     gsf = repo.func('__init__', '_get_storage_file')
     rep.analysed(gsf)
-    opens = [n for hf in repo.helper_closure(gsf) for n in ast.walk(hf.node)
-             if isinstance(n, ast.Call) and norm(n.func) in ('open', 'io.open', 'os.open')]
-    probs = []
-    for n in opens:
-        mode = repo.try_fold(n.args[1], gsf.module) if len(n.args) > 1 else 'r'
-        flags = norm(n)
-        if isinstance(mode, str) and any(ch in mode for ch in 'wa+') and 'x' not in mode and 'O_EXCL' not in flags:
-            probs.append('open(..., %r) is not an exclusive create: two associations storing the same instance at the same time '
-                         'both pass the existence test and write the same file' % mode)
-    if not opens:
-        probs.append('no open() found')
+    from .c15 import atomic_claim_problems
+    probs = atomic_claim_problems(repo)
     rep.check(not probs, 'C20.H5', '__init__:_get_storage_file:atomic-create', gsf.loc(),
               'storage file created with exclusive mode', '; '.join(probs))
 
